@@ -118,6 +118,23 @@ func pubsubHarness(rc *RunCtx) {
 	}
 	rc.Sample["middleware"] = fmt.Sprintf("provider=%d publisher=%d subscriber=%d", nProv, nPub, nSub)
 
+	// C12: publish size limits
+	stompLimit := 0
+	if rc.Prop == "C12" && kind == "stomp" {
+		stompLimit = []int{0, 200, 512, 4096}[tp.Intn("cfg", 4)]
+		rc.Sample["stomp_max_publish_size"] = stompLimit
+	}
+	type sizedPub struct {
+		name      string
+		size      int
+		limit     int
+		err       error
+		onWire    int
+		delivered int
+	}
+	var sized []*sizedPub
+	wireNotes := map[string]int{}
+
 	var nb *SimBroker
 	var sb *SimStomp
 	finished := false
@@ -183,7 +200,7 @@ func pubsubHarness(rc *RunCtx) {
 				finished = true
 				return
 			}
-			pubF = frugal.NewFStompPublisherTransportFactoryBuilder(pc).Build()
+			pubF = frugal.NewFStompPublisherTransportFactoryBuilder(pc).WithMaxPublishSize(stompLimit).Build()
 			subF = frugal.NewFStompSubscriberTransportFactoryBuilder(sc).Build()
 			subject = "/topic/frugal.sim." + user + ".Events.ItemCreated"
 			inject = func(body []byte) { sb.Route(subject, body) }
@@ -205,13 +222,76 @@ func pubsubHarness(rc *RunCtx) {
 			return
 		}
 		// a second subscription (other operation, same user): must only see Notes
-		_, err = sub.SubscribeNote(user, func(fctx frugal.FContext, b *simbase.Blob) { noteGot = append(noteGot, b.Name) })
+		_, err = sub.SubscribeNote(user, func(fctx frugal.FContext, b *simbase.Blob) {
+			noteGot = append(noteGot, b.Name)
+			for _, sp := range sized {
+				if sp.name == b.Name {
+					sp.delivered++
+				}
+			}
+		})
 		if err != nil {
 			infra = "subscribe note: " + err.Error()
 			finished = true
 			return
 		}
 		settle(10 * time.Millisecond)
+		if rc.Prop == "C12" {
+			// count what reaches the broker per note name
+			countWire := func(body []byte) {
+				if f, err := DecodeFrame(body); err == nil {
+					wireNotes[f.Headers["note"]]++
+				}
+			}
+			if nb != nil {
+				nb.OnPublish = func(c *BrokerConn, subject, reply string, hdr, data []byte) bool { countWire(data); return false }
+			} else {
+				sb.OnSend = func(dest string, body []byte) bool { countWire(body); return false }
+			}
+			limit := stompLimit
+			if kind == "nats" {
+				limit = 1024 * 1024
+			}
+			nSized := 1 + tp.Intn("size", 4)
+			if kind == "nats" && tp.Intn("size", 4) != 0 {
+				nSized = 0 // megabyte publishes are expensive
+			}
+			for i := 0; i < nSized && limit > 0; i++ {
+				d := []int{-2, -1, 0, 1, 2, 300}[tp.Intn("size", 6)]
+				sp := &sizedPub{name: fmt.Sprintf("note-sized-%d", i), limit: limit}
+				ctx := frugal.NewFContext("c12")
+				ctx.AddRequestHeader("note", sp.name)
+				hdr := ctx.RequestHeaders()
+				hdr["_topic_user"] = user
+				frameSize := func(n int) int {
+					return len(EncodeFrame(hdr, rawMessage(proto, "Note", thrift.CALL, []rawField{
+						{1, thrift.STRING, sp.name}, {2, thrift.STRING, []byte(strings.Repeat("d", n))}, {3, thrift.LIST, rawList{elem: thrift.I32}}})))
+				}
+				n := 0
+				for k := 0; k < 8 && frameSize(n) != limit+d; k++ {
+					n += limit + d - frameSize(n)
+					if n < 0 {
+						n = 0
+						break
+					}
+				}
+				sp.size = frameSize(n)
+				rc.Fault(fmt.Sprintf("publish-at-limit%+d", sp.size-limit))
+				sized = append(sized, sp) // before publishing: delivery may happen while Publish is still returning
+				sp.err = pub.PublishNote(ctx, user, &simbase.Blob{Name: sp.name, Data: []byte(strings.Repeat("d", n)), Nums: []int32{}})
+			}
+			// the same publisher keeps working afterwards
+			ctx := frugal.NewFContext("c12")
+			ctx.AddRequestHeader("note", "note-after")
+			sp := &sizedPub{name: "note-after", size: 1, limit: limit}
+			sized = append(sized, sp)
+			sp.err = pub.PublishNote(ctx, user, &simbase.Blob{Name: "note-after", Data: []byte{1}, Nums: []int32{}})
+			settle(2 * time.Second)
+			rc.Sample["notes_delivered"] = fmt.Sprint(noteGot)
+			// the limits would reject the ordinary C07 workload: this run ends here
+			finished = true
+			return
+		}
 
 		nPre := 1 + tp.Intn("ops", rc.Scale(10, 30))
 		nInflight := tp.Intn("ops", rc.Scale(3, 8))
@@ -362,6 +442,24 @@ func pubsubHarness(rc *RunCtx) {
 			}
 			if len(wantSub)+len(m.mwSub) > 0 && !reflect.DeepEqual(wantSub, m.mwSub) {
 				rc.Violate("C16", "subscriber-middleware-trace", key, fmt.Sprintf("%s: expected %v, recorded %v", where, wantSub, m.mwSub))
+			}
+		}
+		for _, sp := range sized {
+			sp.onWire = wireNotes[sp.name]
+			where := fmt.Sprintf("publish %s: framed %d bytes, limit %d (%s)", sp.name, sp.size, sp.limit, key)
+			if sp.limit > 0 && sp.size > sp.limit {
+				if !isTooLarge(sp.err, frugal.TRANSPORT_EXCEPTION_REQUEST_TOO_LARGE) {
+					rc.Violate("C12", "oversize-publish-not-rejected", key, fmt.Sprintf("%s: err=%v", where, sp.err))
+				}
+				if sp.onWire > 0 || sp.delivered > 0 {
+					rc.Violate("C12", "oversize-publish-transmitted", key, fmt.Sprintf("%s: reached the broker %d times, delivered %d times", where, sp.onWire, sp.delivered))
+				}
+			} else {
+				if sp.err != nil {
+					rc.Violate("C12", "in-limit-publish-rejected", key, fmt.Sprintf("%s: %v", where, sp.err))
+				} else if sp.delivered != 1 {
+					rc.Violate("C12", "in-limit-publish-not-delivered", key, fmt.Sprintf("%s: delivered %d times", where, sp.delivered))
+				}
 			}
 		}
 		if len(foreignSeen) > 0 {
